@@ -229,6 +229,9 @@ class DFXPReader(BaseReader):
                 # unicode string with xml entities already converted to unicode
                 # characters.
                 tag_text = result.groups()[0]
+                # Text wrapped over several source lines keeps all its words
+                rest = re.sub("\\s*[\n\r]+\\s*$", "", tag[result.end():])
+                tag_text += re.sub("\\s*[\n\r]+\\s*", " ", rest)
                 node = CaptionNode.create_text(
                     tag_text, layout_info=tag.layout_info)
                 self.nodes.append(node)
